@@ -44,6 +44,8 @@ fn main() {
         "simd" => simd::drive_simd(&mut *out, seed, thorough, arg(&args, "--cfg").unwrap_or("?"), arg(&args, "--force").map(|f| f.parse().unwrap()).unwrap_or(0)),
         "c19" => null::drive_c19(&mut *out, seed, thorough),
         "digests" => hashes::drive_digests(&mut *out, arg(&args, "--family").expect("--family"), seed, thorough, arg(&args, "--cfg").unwrap_or("?")),
+        "hash-script" => hashes::run_hash_script(&mut *out, arg(&args, "--script").expect("--script"), seed),
+        "hash-rand" => hashes::drive_hash_histories(&mut *out, seed, thorough),
         "tf" => tf::drive_tf(&mut *out, seed, thorough, arg(&args, "--cfg").unwrap_or("?")),
         "stream-end64" => chacha::drive_end64(&mut *out, seed, thorough),
         "stream-rand" => chacha::drive_histories(&mut *out, seed, thorough, true),
